@@ -470,9 +470,29 @@ def rows(S):
         # corruption: the constraint has ONE output while the state has d > 1 components (error.shape == (1,), reference.shape == (d,))
         if c.op == "in" and isinstance(c.args[1], (list, tuple)) and any(x == (1,) for x in c.args[1]):
             return True
+        if c.op in ("ne", "eq", "gt") and len(c.args) == 2:
+            lens = [x for x in c.args if isinstance(x, T.Term) and x.op in ("len", "py.len")]
+            ones = [x for x in c.args if isinstance(x, int) and not isinstance(x, bool) and x == 1]
+            if lens and ones:
+                return {"ne": False, "eq": True, "gt": False}[c.op]  # exactly one part
         return None
 
-    out.append(Row("residual error estimate of a single-output constraint for a d-dimensional (dense / block-diagonal) state", "solvers", err_shape, "ValueError", ["bad_fx"], assume=one_output))
+    out.append(Row("residual error estimate of a single-output constraint for a d-dimensional (dense / block-diagonal) state", "solvers", err_shape, "ValueError", ["bad_fx"], assume=one_output, allow_conjunction=True))
+
+    def parts_equal_dimension(c):
+        # corruption: the constraint has several parts (a jet-lifted ODE, a DAE stack) and their number equals the state dimension, so that the
+        # isotropic model's one-scalar-per-part error estimate has the reference's shape by coincidence
+        if c.op == "in" and isinstance(c.args[1], (list, tuple)) and any(x == (1,) for x in c.args[1]):
+            return True  # error.shape == reference.shape
+        if c.op in ("ne", "eq", "gt") and len(c.args) == 2:
+            lens = [x for x in c.args if isinstance(x, T.Term) and x.op in ("len", "py.len")]
+            ones = [x for x in c.args if isinstance(x, int) and not isinstance(x, bool) and x == 1]
+            if lens and ones:
+                return {"ne": True, "eq": False, "gt": True}[c.op]  # more than one part
+        return None
+
+    out.append(Row("residual error estimate of a constraint with several parts whose number equals the state dimension (isotropic: one scalar per part)", "solvers", err_shape, "ValueError", ["bad_fx"],
+                   assume=parts_equal_dimension, allow_conjunction=True))
 
     # kernels
     def revert_rank(it):
